@@ -69,7 +69,10 @@ def record(src):
            # the same three entry points called with ONE assignment dict that the caller keeps and
            # updates in place between calls
            'full_r': {l: [] for l in labels}, 'circ_r': {l: [] for l in labels}, 'outs_r': {l: [] for l in dict.fromkeys(c.outputs)}}
+    for k in ('full_x', 'circ_x', 'outs_x'):     # ONE dict shared by all three entry points, called in turn
+        res[k] = {l: [] for l in res[k[:-2]]}
     shared = {'full_r': {}, 'circ_r': {}, 'outs_r': {}}
+    shared_all = {}
     vals = (False, True, Undefined)
 
     def code(d, l):
@@ -98,6 +101,16 @@ def record(src):
                 d = None
             for l in res[kr]:
                 res[kr][l].append(code(d, l))
+        for j in range(n):
+            shared_all[c.inputs[j]] = vals[digits[j]]
+        # the whole-circuit entry point last: what it may have left in the dict meets the NEXT assignment
+        for key, fn in (('circ', c.evaluate_circuit), ('outs', c.evaluate_circuit_outputs), ('full', c.evaluate_full_circuit)):
+            try:
+                d = fn(shared_all)
+            except Exception:
+                d = None
+            for l in res[key + '_x']:
+                res[key + '_x'][l].append(code(d, l))
     return {'kind': 'partial', 'c': project(c), 'res': res, 'src': src}
 
 
